@@ -208,4 +208,31 @@ example : CtlContracts (ctlI (⟨Consts.ctlI_safety, Consts.ctlI_factor_min, Con
     max Consts.ctlI_factor_min Consts.ctlI_safety < 1 :=
   ⟨ctlI_contracts _ (by have := defaults_admissible.1.1; exact this.le), defaults_contract.1⟩
 
+/-- a concrete loop: shipped integral controller, a solver that adds `dt`, an estimator that accepts exactly the steps `≤ 1/4`
+(`error_power = 2`) and rejects the others (`error_power = 1/2`), no clipping -/
+def nvCfg : Cfg ℚ Unit where
+  solver := { init := fun t u => ⟨t, 0, u⟩, step := fun s dt => ⟨s.t + dt, s.numSteps + 1, s.tag⟩,
+              interpFwd := fun _ a b => ⟨b, b, a⟩, interpAtT1 := fun _ a b => ⟨b, b, a⟩ }
+  est := { init := 0, estimate := fun es _ _ dt => (if dt ≤ 1/4 then 2 else 1/2, es) }
+  ctl := ctlI ⟨Consts.ctlI_safety, Consts.ctlI_factor_min, Consts.ctlI_factor_max⟩
+  clip := false
+  seed := Consts.acceptanceFactorInit
+
+/-- non-vacuity of `first_step_terminates`: every hypothesis holds for `nvCfg` (with `h = 1/4`, `ρ` of the shipped defaults) -/
+example (dt0 : ℚ) (hdt0 : 0 < dt0) :
+    ∃ N, ∀ fuel, N ≤ fuel → ∃ s', nvCfg.step fuel (nvCfg.init ⟨0, 0, 0⟩ dt0) 1 = some s' ∧ s'.interpFrom = ⟨0, 0, 0⟩ := by
+  have hd := defaults_admissible.1
+  have hc := defaults_contract
+  refine first_step_terminates nvCfg (fun _ => True) (max Consts.ctlI_factor_min Consts.ctlI_safety) (1/4) hc.2.1 hc.1
+    (by norm_num) ?_ ?_ ?_ ?_ 1 ⟨0, 0, 0⟩ dt0 hdt0 (by intro h; cases h) ?_
+  · exact (ctlI_bounded _ (le_trans hd.2.2.2.1.le hd.2.2.2.2)).pos hd.2.2.1
+  · exact ctlI_inv _
+  · exact ctlI_contracts _ hd.1.le
+  · intro es a b dt
+    show (0 : ℚ) ≤ (if dt ≤ 1/4 then 2 else 1/2)
+    split <;> norm_num
+  · intro dt _ hle
+    show ¬ (if dt ≤ 1/4 then (2 : ℚ) else 1/2) < 1
+    rw [if_pos hle]; norm_num
+
 end Pdq.C06
